@@ -1,21 +1,38 @@
 #!/usr/bin/env python3
 """C10 translator: placeholder constants of the dummy filters, read from the Rust source.
 
-reads   <vcheck.REPO>/quill/src/action/remove_dummy.rs   (the keep-condition of each of the four `retain` levels)
+reads   <vcheck.REPO>/quill/src/action/remove_dummy.rs   (the name tests of each of the four `retain` levels)
         <vcheck.REPO>/quill/src/action/insert_dummy.rs   (the `format!("p_{}", k.index)` placeholder of parameters)
         <vcheck.REPO>/duke/src/tree/method.rs            (MethodName::INIT / MethodName::CLINIT)
 writes  <vcheck.COQ>/C10/Consts.v
 
-Fails closed: the keep-condition of every level must have exactly the shape
+What it does — and what it deliberately does NOT do.  It extracts LITERALS only:
 
-    v.javadoc.is_some() || (!v.<children>.is_empty() ||)* !v.info.names[namespace].as_ref().is_some_and(|x| P || P ...)
+  * per retain level of `remove_dummy` (the level is the last path segment of the receiver of
+    `.retain(`: classes / fields / methods / parameters; text of nested retains excluded):
+    every argument of a `starts_with(…)` call -> `<level>_prefixes`; every `MethodName::<CONST>`
+    mentioned and every `== "<literal>"` comparison -> `<level>_exact`;
+  * the prefix of the one `format!` in `insert_dummy_and_contract_inner_names` whose format
+    string is `<prefix>{…}` -> `insert_param_prefix`;
+  * the string literal of each `MethodName` constant that is referred to.
 
-with every P either  x.as_inner().starts_with("<literal>")  or  x == MethodName::<CONST>;
-the children lists named there must be exactly the nested `retain`s of that level.  Anything
-else (another predicate such as ends_with/contains, another operator, an additional level, a
-different child list) is returned as an error of the check, never guessed at.
-The *shape* of the conditions (what the model hard-codes) and the *constants* (what this file
-generates) are thereby both tied to the source.
+An argument that is an identifier is resolved through a `const NAME: &str = "…"` / `static` /
+`let NAME = "…"` of the same file, so hoisting a literal into a constant is fine.  Closure
+parameter names, local variable names, the order of the `||` operands, block braces, line
+breaks are all irrelevant.  Literals are emitted in a canonical order (by length, then text).
+
+It fails closed (returns an error = broken obligation) ONLY when a literal it needs cannot be
+found or is ambiguous: a level without any name test, an argument that cannot be resolved to
+a string literal, two retains of the same level with different literals, no / several
+candidate `format!` prefixes, a MethodName constant without exactly one string literal.
+
+It does not check the SHAPE of the conditions (how the tests are combined, which child lists are
+tested, that the placeholders of fields/methods/classes are clones of the key): the model
+hard-codes the shape, and the correspondence run (~9000 cases, truth table of every level
+enumerated) together with the property oracle is what ties it to the code.  Anything that
+looks like a change of shape (another string predicate such as ends_with/contains, an
+unexpected receiver of a retain) is recorded in NOTES and shown in the evidence — never an error.
+A changed literal changes Consts.v and thereby breaks theorem C10_placeholder_constants.
 """
 import os
 import re
@@ -23,6 +40,13 @@ import sys
 
 sys.path.insert(0, os.path.join(os.path.dirname(os.path.dirname(os.path.abspath(__file__))), "lib"))
 import vcheck  # noqa: E402  (vcheck.REPO: the repository under test; vcheck.COQ: where generated .v files go)
+
+NOTES = []   # shape observations of the last run (evidence only)
+
+LEVEL_OF = {"classes": "class", "fields": "field", "methods": "method", "parameters": "param"}
+LEVELS = ("class", "field", "method", "param")
+STR = r'"((?:[^"\\]|\\.)*)"'
+IDENT = r"[A-Za-z_][A-Za-z_0-9]*"
 
 
 def repo_file(rel):
@@ -32,108 +56,294 @@ def repo_file(rel):
 def out_path():
     return os.path.join(vcheck.COQ, "C10", "Consts.v")
 
-LEVELS = {
-    # receiver of the retain call -> (level name, child lists that must be tested for emptiness, nested retains)
-    "self.classes": ("class", ["fields", "methods"], ["v.fields", "v.methods"]),
-    "v.fields": ("field", [], []),
-    "v.methods": ("method", ["parameters"], ["v.parameters"]),
-    "v.parameters": ("param", [], []),
-}
-
 
 def strip_comments(src):
-    src = re.sub(r"/\*.*?\*/", "", src, flags=re.S)
-    return "\n".join(re.sub(r"//.*$", "", l) for l in src.split("\n"))
+    """remove // and /* */ comments, leaving string literals alone"""
+    out = []
+    i, n = 0, len(src)
+    while i < n:
+        c = src[i]
+        if c == '"':
+            j = i + 1
+            while j < n and src[j] != '"':
+                j += 2 if src[j] == "\\" else 1
+            out.append(src[i:j + 1])
+            i = j + 1
+        elif src.startswith("//", i):
+            j = src.find("\n", i)
+            i = n if j < 0 else j
+        elif src.startswith("/*", i):
+            j = src.find("*/", i + 2)
+            i = n if j < 0 else j + 2
+        else:
+            out.append(c)
+            i += 1
+    return "".join(out)
 
 
-def balanced(src, i):
-    """src[i] == '(' -> index just after the matching ')' (string literals respected)."""
-    assert src[i] == "("
+def balanced(src, i, open_c="(", close_c=")"):
+    """src[i] == open_c -> index just after the matching close_c (string literals respected)."""
+    assert src[i] == open_c
     depth = 0
     j = i
     while j < len(src):
         c = src[j]
         if c == '"':
             j += 1
-            while src[j] != '"':
+            while j < len(src) and src[j] != '"':
                 j += 2 if src[j] == "\\" else 1
-        elif c == "(":
+        elif c == open_c:
             depth += 1
-        elif c == ")":
+        elif c == close_c:
             depth -= 1
             if depth == 0:
                 return j + 1
         j += 1
-    raise ValueError("unbalanced parenthesis")
+    raise ValueError("unbalanced %s" % open_c)
+
+
+def unescape(lit):
+    """the value of a Rust string literal body; None when it uses an escape this reader does not know"""
+    out = []
+    i = 0
+    while i < len(lit):
+        c = lit[i]
+        if c != "\\":
+            out.append(c)
+            i += 1
+            continue
+        e = lit[i + 1] if i + 1 < len(lit) else ""
+        simple = {"n": "\n", "t": "\t", "r": "\r", "0": "\0", "\\": "\\", '"': '"', "'": "'"}
+        if e in simple:
+            out.append(simple[e])
+            i += 2
+        else:
+            return None
+    return "".join(out)
+
+
+def string_consts(src):
+    """NAME -> value for `const|static NAME: &str = "…";` and `let NAME = "…";` (ambiguous names dropped)"""
+    found = {}
+    for m in re.finditer(r"\b(?:const|static|let)\s+(" + IDENT + r")\s*(?::[^=;]*)?=\s*" + STR + r"\s*;", src):
+        found.setdefault(m.group(1), set()).add(m.group(2))
+    return {k: next(iter(v)) for k, v in found.items() if len(v) == 1}
+
+
+def resolve(arg, consts):
+    """a call argument -> string value, or None"""
+    arg = arg.strip()
+    m = re.fullmatch(STR, arg)
+    if m:
+        return unescape(m.group(1))
+    m = re.fullmatch(r"&?\s*(?:" + IDENT + r"\s*::\s*)*(" + IDENT + r")", arg)
+    if m and m.group(1) in consts:
+        return unescape(consts[m.group(1)])
+    return None
+
+
+def fn_body(src, name):
+    m = re.search(r"\bfn\s+" + re.escape(name) + r"\b", src)
+    if not m:
+        return None
+    i = src.find("{", m.end())
+    if i < 0:
+        return None
+    return src[i:balanced(src, i, "{", "}")]
 
 
 def retains(src):
-    """top-level `<recv>.retain( ... )` calls of src: list of (recv, body, start, end)."""
+    """all `<path>.retain( … )` calls directly in src (not those nested in another retain):
+    list of (last path segment, full receiver, body, start, end)"""
     out = []
     pos = 0
+    rx = re.compile(r"((?:" + IDENT + r"\s*\.\s*)*)(" + IDENT + r")\s*\.\s*retain\s*\(")
     while True:
-        m = re.compile(r"([A-Za-z_][A-Za-z_0-9]*\.[A-Za-z_][A-Za-z_0-9]*)\s*\.retain\s*\(").search(src, pos)
+        m = rx.search(src, pos)
         if not m:
             return out
         end = balanced(src, m.end() - 1)
-        out.append((m.group(1), src[m.end():end - 1], m.start(), end))
+        out.append((m.group(2), re.sub(r"\s+", "", m.group(1) + m.group(2)), src[m.end():end - 1], m.start(), end))
         pos = end
 
 
-PRED_SW = r'x\.as_inner\(\)\.starts_with\("((?:[^"\\])*)"\)'
-PRED_EQ = r"x==MethodName::([A-Z_]+)"
-
-
-def level(recv, body, errs, found):
-    if recv not in LEVELS:
-        errs.append("remove_dummy.rs: unexpected retain on %r" % recv)
-        return
-    name, children, nested_expected = LEVELS[recv]
-    if name in found:
-        errs.append("remove_dummy.rs: second retain for level %s" % name)
-        return
+def scan_level(seg, recv, body, consts, found, errs):
     nested = retains(body)
-    if [n[0] for n in nested] != nested_expected:
-        errs.append("remove_dummy.rs: level %s nests retains %s, expected %s" % (name, [n[0] for n in nested], nested_expected))
+    own = body
+    for _, _, _, s, e in reversed(nested):
+        own = own[:s] + " " + own[e:]
+    for seg2, recv2, body2, _, _ in nested:
+        scan_level(seg2, recv2, body2, consts, found, errs)
+    if seg not in LEVEL_OF:
+        NOTES.append("remove_dummy.rs: retain on %r is none of classes/fields/methods/parameters — ignored by the translator (shape is tied by the correspondence run)" % recv)
         return
-    rest = body
-    for recv2, body2, s, e in reversed(nested):
-        rest = rest[:s] + "@" + rest[e:]
-    for recv2, body2, s, e in nested:
-        level(recv2, body2, errs, found)
-    flat = re.sub(r"\s+", "", rest)
-    pred = "(?:%s|%s)" % (PRED_SW, PRED_EQ)
-    shape = (r"^\|_,v\|\{" + "".join("@;" for _ in nested)
-             + r"v\.javadoc\.is_some\(\)\|\|"
-             + "".join(r"!v\.%s\.is_empty\(\)\|\|" % c for c in children)
-             + r"!v\.info\.names\[namespace\]\.as_ref\(\)\.is_some_and\(\|x\|\{?(" + pred + r"(?:\|\|" + pred + r")*)\}?\)\}$")
-    m = re.match(shape, flat)
-    if not m:
-        errs.append("remove_dummy.rs: keep-condition of level %s has an unrecognised shape: %s" % (name, flat[:300]))
-        return
-    preds = m.group(1).split("||")
-    prefixes, consts = [], []
-    for p in preds:
-        a = re.fullmatch(PRED_SW, p)
-        b = re.fullmatch(PRED_EQ, p)
-        if a:
-            prefixes.append(a.group(1))
-        elif b:
-            consts.append(b.group(1))
+    lv = LEVEL_OF[seg]
+    prefixes, exact = set(), set()
+    for m in re.finditer(r"\bstarts_with\s*\(", own):
+        arg = own[m.end():balanced(own, m.end() - 1) - 1]
+        v = resolve(arg, consts)
+        if v is None:
+            errs.append("remove_dummy.rs: level %s: the argument %r of starts_with cannot be resolved to a string literal" % (lv, arg.strip()))
         else:
-            errs.append("remove_dummy.rs: level %s: unrecognised predicate %s" % (name, p))
-            return
-    found[name] = (prefixes, consts)
+            prefixes.add(v)
+    for m in re.finditer(r"\bMethodName\s*::\s*(" + IDENT + r")\b", own):
+        exact.add(("const", m.group(1)))
+    for m in re.finditer(r"[=!]=\s*" + STR, own):
+        v = unescape(m.group(1))
+        if v is None:
+            errs.append("remove_dummy.rs: level %s: string literal %r uses an escape the translator does not read" % (lv, m.group(1)))
+        else:
+            exact.add(("lit", v))
+    for other in ("ends_with", "contains", "strip_prefix", "strip_suffix", "matches", "find", "eq_ignore_ascii_case"):
+        if re.search(r"\b" + other + r"\s*\(", own):
+            NOTES.append("remove_dummy.rs: level %s also calls %s(…): not represented in Consts.v — shape is tied by the correspondence run only" % (lv, other))
+    if lv in found:
+        if found[lv] != (prefixes, exact):
+            errs.append("remove_dummy.rs: two retains of level %s with different name tests (%s / %s): ambiguous" % (lv, sorted(found[lv][0]), sorted(prefixes)))
+        else:
+            NOTES.append("remove_dummy.rs: level %s is filtered by more than one retain (same literals)" % lv)
+        return
+    if not prefixes and not exact:
+        errs.append("remove_dummy.rs: level %s: no starts_with(\"…\") / MethodName::… / == \"…\" test found in its retain" % lv)
+        return
+    found[lv] = (prefixes, exact)
 
 
-def method_consts(errs):
+def method_consts(names, errs):
+    """value of MethodName::<name> for the names referred to"""
     src = strip_comments(open(repo_file("duke/src/tree/method.rs"), encoding="utf-8").read())
     out = {}
-    for m in re.finditer(r'pub\s+const\s+([A-Z_]+)\s*:\s*&\'static\s+MethodNameSlice\s*=\s*\{\s*unsafe\s*\{\s*MethodNameSlice::from_inner_unchecked\(\s*JavaStr::from_str\(\s*"([^"\\]*)"\s*\)\s*\)\s*\}\s*\}\s*;', src):
-        out[m.group(1)] = m.group(2)
-    if not out:
-        errs.append("duke/src/tree/method.rs: no MethodName constants of the expected form found")
+    for name in sorted(names):
+        hits = []
+        for m in re.finditer(r"\bconst\s+" + re.escape(name) + r"\s*:", src):
+            # up to the `;` that ends the item (brace depth 0)
+            j, depth = m.end(), 0
+            while j < len(src):
+                c = src[j]
+                if c == '"':
+                    j += 1
+                    while j < len(src) and src[j] != '"':
+                        j += 2 if src[j] == "\\" else 1
+                elif c in "{([":
+                    depth += 1
+                elif c in "})]":
+                    depth -= 1
+                elif c == ";" and depth == 0:
+                    break
+                j += 1
+            hits.append(re.findall(STR, src[m.end():j]))
+        lits = [unescape(x) for h in hits for x in h]
+        if len(hits) != 1 or len(lits) != 1 or lits[0] is None:
+            errs.append("duke/src/tree/method.rs: MethodName::%s: expected one constant with exactly one string literal, found %s" % (name, hits))
+        else:
+            out[name] = lits[0]
     return out
+
+
+def format_prefix(fmt, args, consts):
+    """format string + argument texts -> (prefix, None) or (None, reason).  Placeholders whose
+    argument is a string constant count as literal text; exactly one other placeholder, at the end."""
+    pieces = []   # ("lit", text) | ("hole", None)
+    i, pos_arg = 0, 0
+    while i < len(fmt):
+        c = fmt[i]
+        if c == "{" and fmt.startswith("{{", i):
+            pieces.append(("lit", "{"))
+            i += 2
+        elif c == "}" and fmt.startswith("}}", i):
+            pieces.append(("lit", "}"))
+            i += 2
+        elif c == "{":
+            j = fmt.find("}", i)
+            if j < 0:
+                return None, "unterminated placeholder"
+            inner = fmt[i + 1:j].split(":")[0].strip()
+            if inner == "":
+                arg = args[pos_arg].strip() if pos_arg < len(args) else ""
+                pos_arg += 1
+            elif inner.isdigit():
+                arg = args[int(inner)].strip() if int(inner) < len(args) else ""
+            else:
+                arg = inner
+            v = resolve(arg, consts) if arg else None
+            pieces.append(("lit", v) if v is not None else ("hole", None))
+            i = j + 1
+        else:
+            pieces.append(("lit", c))
+            i += 1
+    holes = [k for k, p in enumerate(pieces) if p[0] == "hole"]
+    if len(holes) != 1 or holes[0] != len(pieces) - 1:
+        return None, "not of the form <prefix>{index}"
+    return "".join(p[1] for p in pieces[:-1]), None
+
+
+def split_args(s):
+    out, depth, cur = [], 0, []
+    i = 0
+    while i < len(s):
+        c = s[i]
+        if c == '"':
+            j = i + 1
+            while j < len(s) and s[j] != '"':
+                j += 2 if s[j] == "\\" else 1
+            cur.append(s[i:j + 1])
+            i = j + 1
+            continue
+        if c in "([{":
+            depth += 1
+        elif c in ")]}":
+            depth -= 1
+        if c == "," and depth == 0:
+            out.append("".join(cur))
+            cur = []
+        else:
+            cur.append(c)
+        i += 1
+    if "".join(cur).strip():
+        out.append("".join(cur))
+    return out
+
+
+def insert_prefix(errs):
+    src = strip_comments(open(repo_file("quill/src/action/insert_dummy.rs"), encoding="utf-8").read())
+    consts = string_consts(src)
+    body = fn_body(src, "insert_dummy_and_contract_inner_names")
+    if body is None:
+        errs.append("insert_dummy.rs: fn insert_dummy_and_contract_inner_names not found")
+        return None
+    cands, rejected = set(), []
+    for m in re.finditer(r"\bformat\s*!\s*\(", body):
+        inner = body[m.end():balanced(body, m.end() - 1) - 1]
+        parts = split_args(inner)
+        fm = re.fullmatch(STR, parts[0].strip()) if parts else None
+        if not fm:
+            rejected.append(inner.strip()[:60])
+            continue
+        fmt = unescape(fm.group(1))
+        if fmt is None:
+            rejected.append(inner.strip()[:60])
+            continue
+        p, why = format_prefix(fmt, parts[1:], consts)
+        if p is None or p == "":
+            rejected.append("%s (%s)" % (inner.strip()[:60], why or "empty prefix"))
+        else:
+            cands.add(p)
+    if len(cands) != 1:
+        errs.append("insert_dummy.rs: expected exactly one format!(\"<prefix>{}\", <index>) for the parameter placeholder, found prefixes %s (other format! calls: %s)" % (sorted(cands), rejected))
+        return None
+    if rejected:
+        NOTES.append("insert_dummy.rs: format! calls that are not of the form <prefix>{index} were ignored: %s" % rejected)
+    # shape observations only
+    flat = re.sub(r"\s+", "", body)
+    if flat.count(".name.clone()") < 2:
+        NOTES.append("insert_dummy.rs: fewer than two `.name.clone()` — the field / method placeholder may no longer be the key's name (tied by the correspondence run, not by the translator)")
+    if "get_inner_class_name" not in flat:
+        NOTES.append("insert_dummy.rs: get_inner_class_name is not mentioned — the class placeholder may no longer be the simple inner name (tied by the correspondence run, not by the translator)")
+    return next(iter(cands))
+
+
+def canon(xs):
+    return sorted(xs, key=lambda x: (len(x), x))
 
 
 def gstr(s):
@@ -145,63 +355,47 @@ def glist(xs):
 
 
 def translate():
+    del NOTES[:]
     errs = []
     found = {}
-    src = strip_comments(open(repo_file("quill/src/action/remove_dummy.rs"), encoding="utf-8").read())
-    m = re.search(r"pub\s+fn\s+remove_dummy\s*\(\s*mut\s+self\s*,\s*namespace\s*:\s*&str\s*\)\s*->\s*Result<Self>\s*\{", src)
-    if not m:
-        return ["remove_dummy.rs: fn remove_dummy(mut self, namespace: &str) -> Result<Self> not found"]
-    body = src[m.end():]
-    flat_head = re.sub(r"\s+", "", body)
-    if not flat_head.startswith("letnamespace=self.get_namespace(namespace)?;self.classes.retain("):
-        errs.append("remove_dummy.rs: function does not start with the namespace lookup followed by self.classes.retain")
-    top = retains(body)
-    if [t[0] for t in top] != ["self.classes"]:
-        errs.append("remove_dummy.rs: expected exactly one top-level retain on self.classes, found %s" % [t[0] for t in top])
-    else:
-        level(top[0][0], top[0][1], errs, found)
-        tail = re.sub(r"\s+", "", body[top[0][3]:])
-        if not tail.startswith(";Ok(self)}"):
-            errs.append("remove_dummy.rs: something follows the retain other than Ok(self)")
-    for lv in ("class", "field", "method", "param"):
-        if lv not in found and not errs:
-            errs.append("remove_dummy.rs: level %s not found" % lv)
-    mc = method_consts(errs)
-    exact = {}
-    for lv, (prefixes, consts) in found.items():
-        vals = []
-        for c in consts:
-            if c not in mc:
-                errs.append("MethodName::%s is not defined in duke/src/tree/method.rs in the expected form" % c)
-            else:
-                vals.append(mc[c])
-        exact[lv] = vals
-        if consts and lv != "method":
-            errs.append("level %s compares with MethodName constants" % lv)
-
-    # insert_dummy.rs: the parameter placeholder
-    isrc = strip_comments(open(repo_file("quill/src/action/insert_dummy.rs"), encoding="utf-8").read())
-    fm = re.findall(r'format!\(\s*"((?:[^"\\])*)"\s*,\s*([^)]*)\)', isrc)
-    ins_prefix = None
-    if len(fm) != 1 or fm[0][1].strip() != "k.index" or not fm[0][0].endswith("{}") or "{" in fm[0][0][:-2]:
-        errs.append('insert_dummy.rs: expected exactly one format!("<prefix>{}", k.index), found %s' % fm)
-    else:
-        ins_prefix = fm[0][0][:-2]
-    # the three other placeholders are clones of (parts of) the key
-    flat = re.sub(r"\s+", "", isrc)
-    if flat.count("letb=k.name.clone();v.info=Action::Edit(a.clone(),b);") != 2:
-        errs.append("insert_dummy.rs: expected the field and the method placeholder to be k.name.clone()")
-    if "fnget_simplified(name:&ObjClassName)->&ObjClassNameSlice{name.get_inner_class_name().unwrap_or(name)}letb=get_simplified(k);v.info=Action::Edit(a.clone(),b.to_owned());" not in flat:
-        errs.append("insert_dummy.rs: expected the class placeholder to be get_inner_class_name(k).unwrap_or(k)")
+    try:
+        src = strip_comments(open(repo_file("quill/src/action/remove_dummy.rs"), encoding="utf-8").read())
+        consts = string_consts(src)
+        body = fn_body(src, "remove_dummy")
+        if body is None:
+            return ["remove_dummy.rs: fn remove_dummy not found"]
+        top = retains(body)
+        if not top:
+            return ["remove_dummy.rs: no `.retain(` call in fn remove_dummy"]
+        for seg, recv, rb, _, _ in top:
+            scan_level(seg, recv, rb, consts, found, errs)
+        for lv in LEVELS:
+            if lv not in found and not any((" level %s" % lv) in e for e in errs):
+                errs.append("remove_dummy.rs: no retain for level %s found" % lv)
+        refs = {n for lv in found for (k, n) in found[lv][1] if k == "const"}
+        mc = method_consts(refs, errs)
+        ins_prefix = insert_prefix(errs)
+    except (ValueError, OSError, IndexError) as ex:
+        return ["C10 translator cannot read the sources: %r" % (ex,)]
     if errs:
         return errs
+    exact = {}
+    for lv in LEVELS:
+        vals = set()
+        for k, n in found[lv][1]:
+            vals.add(mc[n] if k == "const" else n)
+        exact[lv] = canon(vals)
+        if exact[lv] and lv != "method":
+            NOTES.append("remove_dummy.rs: level %s compares with whole names %s" % (lv, exact[lv]))
 
     text = "(* GENERATED by translate/c10_consts.py from quill/src/action/{remove_dummy,insert_dummy}.rs and\n"
-    text += "   duke/src/tree/method.rs — do not edit.  Placeholder constants of the dummy filters. *)\n"
+    text += "   duke/src/tree/method.rs — do not edit.  Placeholder constants of the dummy filters\n"
+    text += "   (canonical order: by length, then text). *)\n"
     text += "From FB Require Export Base.Str.\n\n"
-    for lv in ("class", "field", "method", "param"):
-        text += "(* %s *)\n" % ", ".join(repr(p) for p in found[lv][0] + exact[lv])
-        text += "Definition %s_prefixes : list str := %s.\n" % (lv, glist(found[lv][0]))
+    for lv in LEVELS:
+        pre = canon(found[lv][0])
+        text += "(* %s *)\n" % ", ".join(repr(p) for p in pre + exact[lv])
+        text += "Definition %s_prefixes : list str := %s.\n" % (lv, glist(pre))
         text += "Definition %s_exact : list str := %s.\n" % (lv, glist(exact[lv]))
     text += "(* %r *)\n" % ins_prefix
     text += "Definition insert_param_prefix : str := %s.\n" % gstr(ins_prefix)
@@ -218,8 +412,9 @@ c10_consts = translate
 c10_consts.__name__ = "c10_consts"
 
 if __name__ == "__main__":
-    import sys
     e = translate()
     for x in e:
         print("ERROR:", x)
+    for x in NOTES:
+        print("NOTE:", x)
     sys.exit(1 if e else 0)
